@@ -109,6 +109,15 @@ for d in sorted(glob.glob("/tmp/seed-H*/OUT/m*")):
             "alarms_with_final_machinery": sorted(k for k, v in final.items() if v != "ok")}
     json.dump(meta, open(os.path.join(dst, "meta.json"), "w"), indent=1)
     harmless.append((name, meta))
+# the table is built from what is on disk under seeded/, so the tool can be re-run after the scratch worktrees are gone
+rows = []
+for mp in sorted(glob.glob(os.path.join(ROOT, "*", "meta.json"))):
+    m = json.load(open(mp))
+    n = os.path.basename(os.path.dirname(mp))
+    if n.startswith("harmless"):
+        continue
+    rows.append((n, m.get("property_broken", "?"), m))
+harmless = [(os.path.basename(os.path.dirname(mp)), json.load(open(mp))) for mp in sorted(glob.glob(os.path.join(ROOT, "harmless-*", "meta.json")))]
 with open(os.path.join(ROOT, "README.md"), "w") as f:
     f.write("# Seeded changes\n\nEach directory holds `patch.diff` (apply with `git -C /repo apply`), the demonstration `demo.rs` and `meta.json`.\n"
             "`mN` seeds were written by fresh sub-agents that saw only the property text; `revert-D*` are the six repaired defects put back.\n"
